@@ -137,4 +137,8 @@ example : XP.SVD.IsSVD (!![2, 0; 0, 1; 0, 0] : Matrix (Fin 3) (Fin 2) ℝ) !![1,
 theorem src_hilbert_recentres_per_feature :
     Gen.hilbertRecentreMeanArgs = "axis=0" ∧ Gen.hilbertRecentreAfterCutUnconditional = true := by decide
 
+/-- source obligation (ExtendedEOF): the analysis of the delay-embedded matrix centres it (the option is forwarded, not
+hard-wired off), so the explained variances are eigenvalues of its covariance -/
+theorem src_eeof_inner_centres : Gen.eeofInnerEOF.lookup "center" = some "self._params['center']" := by decide
+
 end C01
